@@ -249,6 +249,13 @@ def check_acc(case, st):
   try:
     lm = R.obj_lat(m.output, "operand")
   except ValueError as e:
+    if mk == "po2" and "empty" in str(e):
+      # reported cap below the smallest exponent of the reported width: the
+      # multiplier type holds no value at all (only produced by the signed x
+      # unsigned po2 Adder, C16-KF1) - nothing to accumulate, C16's business
+      st["labels"].append("mult_type_holds_no_value")
+      st["skip_known_upstream"] = True
+      return [], out
     raise LibFailure("bad_multiplier_type", dict(base, clause="fields"), "%s %r" % (e, R.fields(m.output)))
   try:
     lo = R.obj_lat(out, "output")
@@ -494,7 +501,15 @@ def check_mono(case, st):
   _, o1 = CHECKS[base["t"]](base, st2)
   _, o2 = CHECKS[base["t"]](wide, {"labels": [], "nobrute": True})
   st["labels"] += [l for l in st2["labels"] if l.split(":")[0] in ("acc", "add", "merge")]
-  st["labels"].append("widen:" + wd["how"])
+  how = wd["how"]
+  tdesc = None
+  if wd["target"] == "ops" and base["t"] == "merge":
+    tdesc = base["ops"][wd.get("index", 0) % len(base["ops"])]
+  elif wd["target"] in base and isinstance(base[wd["target"]], dict):
+    tdesc = base[wd["target"]]
+  if how == "bits+1" and tdesc is not None and tdesc["k"] == "po2":
+    how = "po2_bits+1"      # widens the exponent range on both sides
+  st["labels"].append("widen:" + how)
   if o1 is None or o2 is None or o1.is_floating_point or o2.is_floating_point:
     st["skip"] = True
     return [], None
@@ -505,11 +520,11 @@ def check_mono(case, st):
   fails = []
   for name, f in (("bits", lambda q: int(q.bits)), ("int_bits", lambda q: int(q.int_bits)), ("frac", _frac)):
     if f(o2) < f(o1):
-      sig = {"site": site, "field": name, "widen": wd["how"], "target": wd["target"]}
+      sig = {"site": site, "field": name, "widen": how, "target": wd["target"]}
       if base["t"] == "merge":
         sig["n"] = "2" if len(base["ops"]) == 2 else ">2"
       fails.append(("monotonic", sig, "%s shrinks %d -> %d when %s of %s is widened: %r -> %r ; results %r -> %r" % (
-          name, f(o1), f(o2), wd["how"], wd["target"], base, wide, R.fields(o1), R.fields(o2))))
+          name, f(o1), f(o2), how, wd["target"], base, wide, R.fields(o1), R.fields(o2))))
   return fails, o2
 
 
